@@ -22,7 +22,7 @@ import (
 
 func TestMain(m *testing.M) { drv.Main(m) }
 
-const rule = "mint parameters drawn per case: four 18-decimal proportions summing to 1 (zeros included), reduction factor in (0,1], reduction period 1..10 epochs, start epoch 0..5, 0-6 weighted developer receivers (weights summing to 1, empty addresses included), initial provision 0..1e18 incl. fractional values, pool-incentives distribution records with random weights incl. the community-pool gauge 0 or none; then 1..40 consecutive AfterEpochEnd signals of the mint epoch (a failing hook is rolled back as the epochs module does); oracle in big.Rat: provision multiplied by the factor exactly at epochs e >= period + lastReduction (first at start+period) and never otherwise, nothing before the start epoch; per epoch: fee collector +floor(p*staking), developer receivers +floor(floor(p*dev)*w_i), pool-incentives + incentives + community pool together + floor(p*pool) + remainder + empty-address shares, mint module balance 0, reported supply (with offset) + floor(p) minus the receiver-truncation dust that stays in the vesting account; non-trivial = a reduction happened inside the run and >= 2 proportions have non-integral shares; distinct by parameter hash"
+const rule = "between mint epochs the end/start signals of other timers (week/day/hour, epoch numbers incl. the configured start epoch) are delivered and must leave the mint store and the supply untouched; mint parameters drawn per case: four 18-decimal proportions summing to 1 (zeros included), reduction factor in (0,1], reduction period 1..10 epochs, start epoch 0..5, 0-6 weighted developer receivers (weights summing to 1, empty addresses included), initial provision 0..1e18 incl. fractional values, pool-incentives distribution records with random weights incl. the community-pool gauge 0 or none; then 1..40 consecutive AfterEpochEnd signals of the mint epoch (a failing hook is rolled back as the epochs module does); oracle in big.Rat: provision multiplied by the factor exactly at epochs e >= period + lastReduction (first at start+period) and never otherwise, nothing before the start epoch; per epoch: fee collector +floor(p*staking), developer receivers +floor(floor(p*dev)*w_i), pool-incentives + incentives + community pool together + floor(p*pool) + remainder + empty-address shares, mint module balance 0, reported supply (with offset) + floor(p) minus the receiver-truncation dust that stays in the vesting account; non-trivial = a reduction happened inside the run and >= 2 proportions have non-integral shares; distinct by parameter hash"
 
 var e18 = new(big.Int).Exp(big.NewInt(10), big.NewInt(18), nil)
 
@@ -165,6 +165,36 @@ func TestPropMint(t *testing.T) {
 				if a != nil {
 					preRecv[i] = bal(a)
 				}
+			}
+			// signals of the other timers of the chain (the mint epoch is one of several identifiers; their epoch numbers are
+			// unrelated and do hit the configured start epoch): minting must ignore them entirely
+			for k := rapid.IntRange(0, 2).Draw(rt, "foreignSignals"); k > 0; k-- {
+				other := rapid.SampledFrom([]string{"week", "day", "hour", "another"}).Draw(rt, "foreignIdentifier")
+				if other == params.EpochIdentifier {
+					continue
+				}
+				var n int64
+				switch rapid.IntRange(0, 2).Draw(rt, "foreignNumberKind") {
+				case 0:
+					n = params.MintingRewardsDistributionStartEpoch
+				case 1:
+					n = e
+				default:
+					n = int64(rapid.IntRange(0, 12).Draw(rt, "foreignNumber"))
+				}
+				d0, s0 := c.DigestStores(minttypes.StoreKey), supply()
+				if err := c.Try(func(ctx sdk.Context) error {
+					if err := mk.Hooks().BeforeEpochStart(ctx, other, n); err != nil {
+						return err
+					}
+					return mk.Hooks().AfterEpochEnd(ctx, other, n)
+				}); err != nil {
+					rt.Fatalf("mint hooks failed on the signal of another timer (%s, %d): %v", other, n, err)
+				}
+				if c.DigestStores(minttypes.StoreKey) != d0 || supply().Cmp(s0) != 0 {
+					rt.Fatalf("the end of epoch %d of timer %q (not the mint timer %q) changed the mint module's state or the supply [params %s]", n, other, params.EpochIdentifier, describe(params, prov))
+				}
+				cs.Class("foreign-epoch-signal")
 			}
 			sup0 := supply()
 			err := c.Try(func(ctx sdk.Context) error { return mk.Hooks().AfterEpochEnd(ctx, params.EpochIdentifier, e) })
